@@ -29,7 +29,7 @@ func init() {
 		ID: "C19", Level: "model_checking", Race: true,
 		Rule:   "SPX under -race: eight harnesses (server: SETTINGS vs response encoding; RST_STREAM vs running handler vs next request; ping/idle/request timers vs teardown; streamed response vs WINDOW_UPDATE vs disconnect mid-frame; client: two callers vs responses vs Close; timeout vs late response vs Ctx reuse vs SETTINGS; GOAWAY vs new request; upload vs window grants vs reset), each starting after a canonical prelude (handshake, one warm exchange). Every schedule with <= 1 (quick) / <= 2 (thorough) deviations from the run-to-quiescence default is executed on the real goroutines; decision points are all synchronisation operations (channel ops, select, mutex, atomics, transport I/O, goroutine start, timer firing). Oracles per schedule: race detector report (tied to the schedule through its log), pool tracker (double release, release while a handler owns the object), no unrecovered panic, replay of the prefix never diverges. Non-trivial: a schedule with >= 1 decision point; distinct by scenario+schedule.",
 		Assume: []string{"race detection is happens-before based on the program's own synchronisation (real atomics; mutex, channel, pool, timer and goroutine-start edges annotated by the shims); weak-memory reorderings are not modelled", "fasthttp, bufio and the runtime are trusted; TLS is a pass-through"},
-		Run:    runC19, Replay: replayC19, QuickS: 240, ThoroughS: 2400,
+		Run:    runC19, Replay: replayC19, QuickS: 360, ThoroughS: 2400,
 	})
 }
 
@@ -71,6 +71,8 @@ type spxScenario struct {
 	Role  string
 	PerG  bool // pool policy (see vsched.PoolPerGoroutine)
 	Build func() *spxInst
+	// Deeper: a short harness that is explored one deviation deeper than the others of its role
+	Deeper bool
 }
 
 func frames(fs ...peer.Frame) []byte {
@@ -355,6 +357,24 @@ func clientScenarios() []*spxScenario {
 			}
 			return x
 		}},
+		{Name: "S19-close-vs-responses-buffered-in-one-read", Role: "client", Deeper: true, Build: func() *spxInst {
+			// both responses arrive in one segment: the read loop has the second one in its buffer (and will run
+			// it through the connection's decoder) whatever Close and the write loop's teardown do meanwhile
+			h := c19Client(harness.ClientOpts{})
+			x := &spxInst{s: h.S, cl: h}
+			x.start = func() {
+				sc := h.Conns[0]
+				h.SpawnCaller(c19Spec("a", []byte("body-a")))
+				h.SpawnCaller(c19Spec("b", nil))
+				x.startEnv(
+					&harness.EnvThread{Name: "server", Steps: []harness.EnvStep{
+						{Kind: "inject", WaitHeaders: 2, Bytes: append(c19Resp(sc, 3, "first"), c19Resp(sc, 5, "second")...)},
+					}},
+					&harness.EnvThread{Name: "closer", Steps: []harness.EnvStep{{Kind: "close"}}},
+				)
+			}
+			return x
+		}},
 		{Name: "S6-timeout-vs-late-response-vs-reuse-vs-settings", Role: "client", Build: func() *spxInst {
 			h := c19Client(harness.ClientOpts{MaxResponseTime: time.Second})
 			x := &spxInst{s: h.S, cl: h}
@@ -617,6 +637,16 @@ func runC19(c *fw.Ctx) {
 	cappedAt := map[string]string{}
 	maxPts := map[string]int{}
 	scs := c19Scenarios()
+	if only := os.Getenv("VERIF_SPX_ONLY"); only != "" {
+		// debugging aid: explore only the harnesses whose name starts with this
+		var keep []*spxScenario
+		for _, sc := range scs {
+			if strings.HasPrefix(sc.Name, only) {
+				keep = append(keep, sc)
+			}
+		}
+		scs = keep
+	}
 	// iterative deepening over all harnesses: bound 1 everywhere, then 2, then 3
 	for b := 1; b <= 3; b++ {
 		for si, sc := range scs {
@@ -627,6 +657,9 @@ func runC19(c *fw.Ctx) {
 				top = 2
 			}
 			if c.Tier == "thorough" {
+				top++
+			}
+			if sc.Deeper {
 				top++
 			}
 			if b > top || cappedAt[sc.Name] != "" {
